@@ -45,6 +45,11 @@ GCC_BRANCH = [
     ("etl/_cstring/*.hpp", r"#if defined\(__clang__\)", "#if 0 /* overlay: GCC branch */"),
     ("etl/_cwchar/*.hpp", r"#if defined\(__clang__\)", "#if 0 /* overlay: GCC branch */"),
     ("etl/_cmath/signbit.hpp", r"and not defined\(TETL_COMPILER_CLANG\)", "and not 0 /* overlay: GCC branch */"),
+    # A condition that EXCLUDES the baseline compiler ("... and not defined(TETL_COMPILER_GCC)") is evaluated as GCC evaluates it, so
+    # that the branch GCC compiles is the one that is lowered.  (The positive form "or defined(TETL_COMPILER_GCC)" guards GCC-only
+    # builtins that clang 14 does not have and cannot be selected; such code is reached by the co-execution only.)
+    ("etl/_*/*.hpp", r"not defined\(TETL_COMPILER_GCC\)", "not 1 /* overlay: GCC identity */"),
+    ("etl/_*/*.hpp", r"!\s*defined\(TETL_COMPILER_GCC\)", "!1 /* overlay: GCC identity */"),
 ]
 
 # P0848 emulation for drivers that instantiate these with a non-trivially-destructible type
